@@ -7,7 +7,7 @@ LEAN_MODULES = ['EpyVerif.Props.C16']
 TRUSTED = [
     "model EpyVerif/Model/GF.lean (FunctionGF/DiscreteGF, SumGF, ProductGF incl. the code's own pair enumeration and product-rule recursion) tied by Driver/GF.lean on exact rationals; the driver's fast tables are proved equal to the model (C16.driver_is_model)",
     "functools.lru_cache assumed transparent (GF objects are immutable); fractions.Fraction assumed exact; itertools.combinations_with_replacement as documented",
-    "evaluation theorems assume every coefficient-list leaf has at most 301 terms (FunctionGF.evaluate truncates at 300; the model reproduces the truncation and the harness also runs longer leaves)",
+    "a coefficient list is modelled as leaf cs = fn (listCoeff cs) (len cs): DiscreteGF passes len(cs) as largest term (honoured since fix ef24ee9); three_views holds for lists of any length, and the harness runs leaves of 301..310 terms",
 ]
 ASSUMPTIONS = ["c*f (reflected multiplication) is not defined by the code; (c*f)[i] is read as f*c"]
 RULE = ("random expression trees (depth<=4; leaves = Fraction coefficient lists, some longer than 301 terms) over + - * (GF and constant), "
@@ -23,7 +23,7 @@ def _jobs(ctx):
     jobs = []
     cor = ctx.corpus()
     if cor:
-        trees = [json.load(open(f))['tree'] for f in cor]
+        trees = [{k: v for k, v in json.load(open(f)).items() if k in ('tree', 'x', 'ks')} for f in cor]
         p = os.path.join(ctx.run, 'corpus_trees.json'); json.dump(trees, open(p, 'w'))
         jobs.append(('corpus', ['trees', p]))
     for k in range(8 if q else 16):
